@@ -221,11 +221,15 @@ def interpolateReturn (body : List Stmt) (annot : Option String) (returns : Opti
   | some t => some { (returns.getD {}) with typ := some t }
   | none => returns
 
+/-- `get_function_type` -/
+def foundTypeOf (args : List Arg) : String :=
+  match args with
+  | a :: _ => if a.name == "self" || a.name == "cls" then a.name else "static"
+  | [] => "static"
+
 def parseFunction (env : Env) (inferType : Bool) (t : Top) : Except String IR := do
   let .fn fname args body annot := t | .error "AssertionError"
-  let foundType := match args.args with
-    | a :: _ => if a.name == "self" || a.name == "cls" then a.name else "static"
-    | [] => "static"
+  let foundType := foundTypeOf args.args
   let (doc?, rest) := splitDoc body
   let posArgs := if foundType == "static" then args.args else args.args.drop 1
   let ir0 : IR := match doc? with
@@ -309,9 +313,7 @@ def argparseStep (env : Env) (docIR : IR) (rawDoc : String) (ir : IR) (s : Stmt)
 
 def parseArgparse (env : Env) (t : Top) : Except String IR := do
   let .fn fname args body _ := t | .error "AssertionError"
-  let foundType := match args.args with
-    | a :: _ => if a.name == "self" || a.name == "cls" then a.name else "static"
-    | [] => "static"
+  let foundType := foundTypeOf args.args
   let (doc?, rest) := splitDoc body
   let some raw := doc? | .error "unsupported: argparse function without docstring"
   let docIR := env.docParse .argparse raw
